@@ -2,7 +2,7 @@
 # official detection pass over all seeded changes: each one against the check of its own property
 # (plus extra checks given in EXTRA), on /repo itself
 cd /verif
-declare -A EXTRA=( [C16-2]="C18" [C10-1]="C12" [C17-r2-1]="C16 C18" [C10-r2-2]="C12" [C03-r3-2]="C16 C18" [C01-r3-1]="C17" [C01-r3-2]="C16" [C16-r3-2]="C18" [C18-r3-1]="C03" [C12-r3-2]="C10" [C06-r4-2]="C16" [C04-r4-1]="C13" [C08-r4-2]="C07" [C01-r4-2]="C16 C17" [C17-r4-1]="C16" [C01-r4-1]="C13" [C06-r5-2]="C05" [C17-r5-1]="C16" [C01-r5-1]="C16" [C16-r5-2]="C18" [C11-r5-2]="C05" )
+declare -A EXTRA=( [C16-2]="C18" [C10-1]="C12" [C17-r2-1]="C16 C18" [C10-r2-2]="C12" [C03-r3-2]="C16 C18" [C01-r3-1]="C17" [C01-r3-2]="C16" [C16-r3-2]="C18" [C18-r3-1]="C03" [C12-r3-2]="C10" [C06-r4-2]="C16" [C04-r4-1]="C13" [C08-r4-2]="C07" [C01-r4-2]="C16 C17" [C17-r4-1]="C16" [C01-r4-1]="C13" [C06-r5-2]="C05" [C17-r5-1]="C16" [C01-r5-1]="C16" [C16-r5-2]="C18" [C11-r5-2]="C05" [C09-r6-1]="C12" )
 ONLY=${1:-}
 for d in seeded/*-*/; do
   name=$(basename $d)
